@@ -1,4 +1,5 @@
 import TurVerif.Model.PageLocks
+import TurVerif.Model.PageLocksFine
 import TurVerif.Lemmas.PageLocksLive
 /-!
 C36  Page write locks are mutually exclusive.
@@ -40,6 +41,40 @@ theorem fixed_same_schedule_safe :
 theorem fixed_all_prefixes_safe :
     (List.range (cexSched.length + 1)).all
       (fun n => pageSafe (run (init true cexProgs) (cexSched.take n)) 7) = true := by decide
+
+/-! ### why `get_or_create` must be one step: the non-atomic variant (`PageLocksFine`) -/
+
+def naProgs : List (List Op) := [[.write 7], [.write 7], [.write 7]]
+
+/-- T0 takes the write lock of page 7; T1 finds T0's entry in the map and is pre-empted before the
+ref-count increment; T0 unlocks, drops the count to 0 and removes the entry; T1 increments the
+count of the orphaned entry and write-locks it; T2 finds no entry, creates a fresh one and
+write-locks the same page. -/
+def naSched : List Nat := [0, 0, 0,  1, 1,  0, 0, 0,  1, 1,  2, 2, 2]
+
+/-- with the REPAIRED cleanup, but lookup and ref-count increment as two steps (the shard mutex
+released in between), the property fails: two simultaneous writers of page 7 -/
+theorem nonatomic_get_or_create_counterexample :
+    let f := PageLocksFine.frun (PageLocksFine.finit true naProgs) naSched
+    writersOf f.s 7 = 2 ∧ pageSafe f.s 7 = false := by decide
+
+/-- the same programs and schedule on the atomic model: T1 holds a counted reference, T0's
+cleanup keeps the entry, T2 re-uses it and has to wait -/
+theorem atomic_same_schedule_safe :
+    let s := run (init true naProgs) naSched
+    writersOf s 7 ≤ 1 ∧ pageSafe s 7 = true := by decide
+
+/-- on states with no thread inside the window the fine model steps exactly like the coarse one,
+except that an existing entry is looked up first (the increment is the next step of that thread) -/
+theorem fine_step_no_window (f : PageLocksFine.FState) (tid : Nat) (t : Thread)
+    (hp : f.pending = []) (ht : f.s.threads[tid]? = some t)
+    (hpc : ∀ p w, t.pc = .getOrCreate p w → lookup f.s.map p = none) :
+    PageLocksFine.fstep f tid = (step f.s tid).map (fun s' => { f with s := s' }) := by
+  unfold PageLocksFine.fstep
+  simp only [hp, List.find?_nil, ht]
+  cases hpc' : t.pc with
+  | getOrCreate p w => simp only [hpc p w hpc']
+  | _ => rfl
 
 /-! ### general theorems about the repaired model (`fixed = true`): all thread counts, all
 programs, all schedules.  They follow from the inductive invariant `PageLocks.Inv`
